@@ -3701,8 +3701,39 @@ static Value eval_expression(ASTNode *expr, Environment *env) {
         case AST_FLOAT:
             return create_float(expr->as.float_val);
 
-        case AST_STRING:
-            return create_string(expr->as.string_val);
+        case AST_STRING: {
+            /* The lexer keeps the literal's source text: process escape sequences
+             * here, as the C compiler does for the compiled program */
+            const char *lit_src = expr->as.string_val ? expr->as.string_val : "";
+            if (!strchr(lit_src, '\\')) {
+                return create_string(lit_src);
+            }
+            size_t lit_len = strlen(lit_src);
+            char *lit_val = malloc(lit_len + 1);
+            if (!lit_val) return create_string(lit_src);
+            size_t vlen = 0;
+            for (size_t k = 0; k < lit_len; k++) {
+                if (lit_src[k] == '\\' && k + 1 < lit_len) {
+                    k++;
+                    switch (lit_src[k]) {
+                        case 'n':  lit_val[vlen++] = '\n'; break;
+                        case 't':  lit_val[vlen++] = '\t'; break;
+                        case 'r':  lit_val[vlen++] = '\r'; break;
+                        case 'a':  lit_val[vlen++] = '\a'; break;
+                        case 'b':  lit_val[vlen++] = '\b'; break;
+                        case 'f':  lit_val[vlen++] = '\f'; break;
+                        case 'v':  lit_val[vlen++] = '\v'; break;
+                        default:   lit_val[vlen++] = lit_src[k]; break; /* \\ \" \' \? */
+                    }
+                } else {
+                    lit_val[vlen++] = lit_src[k];
+                }
+            }
+            lit_val[vlen] = '\0';
+            Value lit_result = create_string(lit_val);
+            free(lit_val);
+            return lit_result;
+        }
 
         case AST_BOOL:
             return create_bool(expr->as.bool_val);
